@@ -28,9 +28,10 @@ def rt_instances():
            RT('rt_addr4', 'addr4', 2, 1, 0), RT('rt_addr4x', 'addr4x', 0, 1, 0), RT('rt_addr6', 'addr6', 0, 0, 0), RT('rt_addr6x', 'addr6x', 1, 0, 0),
            RT('rt_iced', 'iced', 0, 0, 0)]
     kf = [(2, 1), (0, 0), (0, 1), (3, 0), (1, 1), (0, 0)]
-    for ln in range(6):       # every length 0..5: all residues mod 4
+    for ln in range(6):       # every length 0..5: all residues mod 4 (strings: all six in quick; byte strings / reason phrases: 0..3 in quick, 4..5 in thorough)
         k, f = kf[ln]
-        out += [RT('rt_str_%d' % ln, 'str', k, f, ln), RT('rt_bytes_%d' % ln, 'bytes', kf[5 - ln][0], kf[5 - ln][1], ln), RT('rt_err_%d' % ln, 'err', k, 1 - f, ln)]
+        out += [RT('rt_str_%d' % ln, 'str', k, f, ln), RT('rt_bytes_%d' % ln, 'bytes', kf[5 - ln][0], kf[5 - ln][1], ln, tiers=QT if ln < 4 else T),
+                RT('rt_err_%d' % ln, 'err', k, 1 - f, ln, tiers=QT if ln < 4 else T)]
     # thorough: remaining key/fingerprint combinations and the address attributes not in quick
     for grp in ('ints', 'addr4', 'addr4x', 'addr6', 'addr6b', 'addr6x'):
         for k in (0, 2):
@@ -67,7 +68,7 @@ stun_instances = rt_instances() + [
     S('enc_err', 'h_enc_err', solver='cadical', bound='error class 3..6 and number 0..99 symbolic, empty reason phrase'),
     S('dec_err_0', 'h_dec_err', (0, 0, 0, 0), dec=1, bound='class and number bytes arbitrary, reason phrase of 0 bytes'),
     S('dec_err_3', 'h_dec_err', (3, 0, 0, 0), dec=1, bound='class and number bytes arbitrary, reason phrase of 3 ASCII bytes (no NUL)'),
-    LEN(0, 'priority', QT), LEN(1, 'ice_controlling', QT),
+    LEN(0, 'priority', QT), LEN(1, 'ice_controlling', T),
     LEN(2, 'ice_controlled', T), LEN(3, 'use_candidate', T), LEN(4, 'channel_number', T), LEN(5, 'lifetime', T), LEN(6, 'requested_transport', T), LEN(7, 'reservation_token', T), LEN(8, 'change_request', T),
     MI('mi', 2, sym=1), MI('fp', 0, sym=1),
     MI('mi', 1), MI('mi_fp', 2), MI('prio_mi', 1), MI('user_mi', 1), MI('xaddr_mi', 1), MI('unk_mi', 1), MI('mi_prio', 1), MI('mi_mi', 1), MI('fp', 1), MI('mi_fp', 0),
@@ -92,7 +93,7 @@ util_instances = [
     U('crc_table', 'h_crc_table', unwind=10, bound='all 256 table entries (symbolic index)'),
     U('crc_bytes6', 'h_crc_bytes', (6, 0, 0, 0), cap=40, unwind=12, tiers=QT, solver='cadical', bound='all byte strings of length 0..6'),
     U('crc_bytes8', 'h_crc_bytes', (8, 0, 0, 0), cap=40, unwind=12, tiers=T, solver='cadical', timeout_s=1800, bound='all byte strings of length 0..8'),
-] + [HM(k, 0, QT) for k in (0, 1, 63, 64, 65, 70)] + [HM(k, 1, QT) for k in (16, 64, 65)] + [HM(k, 0, T) for k in (2, 20, 32, 62, 66, 67, 100, 128, 300)] + [HM(k, 1, T) for k in (0, 63, 66, 128)
+] + [HM(k, 0, QT) for k in (0, 63, 64, 65)] + [HM(k, 1, QT) for k in (64, 65)] + [HM(k, 0, T) for k in (1, 2, 20, 32, 62, 66, 67, 70, 100, 128, 300)] + [HM(k, 1, T) for k in (0, 16, 63, 66, 128)
 ]
 
 SPEC = dict(
@@ -110,10 +111,10 @@ SPEC = dict(
         'ports and error codes are per-instance constants in the round trips (0 = attribute absent); symbolic ports / codes in enc_addr_*, dec_addr_*, enc_err, dec_err_*',
         'acceptance: datagrams of 44..72 bytes with a fixed attribute layout ([MI], [MI,FP], [X,MI] for X in PRIORITY/USERNAME/XOR-MAPPED/unknown, [MI,PRIORITY], [MI,MI], [FP]); '
         'header, payload and the length field of the last attribute symbolic; key 1..2 (thorough: 8) symbolic bytes or empty',
-        'length validation: one fixed-size attribute with symbolic length field (PRIORITY, ICE-CONTROLLING in quick; seven more types in thorough)',
+        'length validation: one fixed-size attribute with symbolic length field (PRIORITY in quick; eight more types in thorough)',
         'safety: arbitrary datagrams of 20 and 24 bytes (thorough: 28) with a valid header length field, every size 0..19, one wrong length field; peekType on 20/28 bytes',
         'CRC-32: all 256 table entries; all byte strings of length <= 6 (thorough: 8)',
-        'HMAC: key lengths 0, 1, 63, 64, 65, 70 (SHA-1) and 16, 64, 65 (MD5) in quick; 2, 20, 32, 62, 66, 67, 100, 128, 300 more in thorough; key and text bytes symbolic, text 0..4 bytes',
+        'HMAC: key lengths 0, 63, 64, 65 (SHA-1) and 64, 65 (MD5) in quick; 1, 2, 16, 20, 32, 62, 66, 67, 70, 100, 128, 300 more in thorough; key and text bytes symbolic, text 0..4 bytes',
     ],
     assumptions=[
         'strings are ASCII without NUL (QString::fromUtf8(QByteArray) stops at the first NUL; the UTF-8 codec is Qt\'s and is modelled as identity on ASCII)',
